@@ -90,7 +90,14 @@ class Parser(Emitter):
             if new_value is not None:
                 result['value'] = new_value
 
-        self._notify('callFunction', name, args, valsetter)
+        try:
+            self._notify('callFunction', name, args, valsetter)
+        except Exception as e:
+            # a listener that implements the function and fails: as when a function raises, the
+            # error is the value of the call
+            if self.debug:
+                traceback.print_exc()
+            result['value'] = formulaserror.from_message(e)
         if result['value'] is not_found:
             raise formulaserror.NAME
         return self._canonical(result['value'])
